@@ -120,7 +120,7 @@ class Check:
         if os.path.exists(out):
             os.remove(out)
         frm, aborts, t = 0, 0, time.time()
-        only = "-only" in [str(a) for a in args]
+        only = "-only" in [str(a) for a in args] or "-upto" in [str(a) for a in args]
         for _restart in range(max_aborts + 1):
             cmd = [h, driver, "-seed", str(self.seed if seed is None else seed), "-tier", self.tier, "-out", out,
                    "-append", "-from", str(frm)] + [str(a) for a in args]
@@ -345,6 +345,15 @@ class Check:
         rp["worker"] = worker
         rp["race"] = race
         ok, why = run_replay(self, rp)
+        if ok is False and not race:
+            # the case alone is accepted: the rejection may depend on the calls made before it in the same process
+            # (state carried between calls is itself against the per-call properties). Re-execute cases 0..k.
+            rp2 = self.replay_record(label, driver, dargs, module, cfg, inv, ev, driver_env, prefix=True)
+            rp2["worker"] = worker
+            rp2["race"] = race
+            ok2, why2 = run_replay(self, rp2)
+            if ok2 is True:
+                rp, ok, why = rp2, True, why2 + " (only after the cases before it ran in the same process)"
         if ok is True:
             path = self.save_replay(rp)
             self.violations.append(path)
@@ -354,19 +363,21 @@ class Check:
             raise ToolError("%s: rejection of %s case %s not reproduced on re-execution (%s)"
                             % (label, driver, ev.get("case"), why))
 
-    def replay_record(self, label, driver, dargs, module, cfg, inv, ev, driver_env=None):
+    def replay_record(self, label, driver, dargs, module, cfg, inv, ev, driver_env=None, prefix=False):
         dargs = [str(a) for a in dargs]
         table, case = None, ev.get("case")
         if "-in" in dargs:
             # make the replay self-contained: embed the case table (or just the one case) the driver reads
             pth = dargs[dargs.index("-in") + 1]
             lines = open(pth).read().splitlines()
-            if driver == "hsms-enum" or len(lines) <= 300:
+            if prefix:
+                table = lines[:case + 1]
+            elif driver in ("hsms-enum", "conc-cold") or len(lines) <= 300:   # (drivers whose cases are not table lines)
                 table = lines
             else:
                 table, case = [lines[case]], 0
             dargs[dargs.index("-in") + 1] = "@TABLE@"
-        return dict(table=table, replay_case=case,property=self.pid, stage=label, driver=driver, driver_args=[str(a) for a in dargs],
+        return dict(table=table, replay_case=case, prefix=prefix, property=self.pid, stage=label, driver=driver, driver_args=[str(a) for a in dargs],
                     seed=ev.get("seed", self.seed), case=ev.get("case"), variant=ev.get("variant"),
                     module=module, cfg=cfg, invariant=inv, tier=self.tier, driver_env=driver_env or {}, event=ev)
 
@@ -431,14 +442,15 @@ def run_replay(ck, rp):
         open(tp, "w").write("\n".join(rp["table"]) + "\n")
         args = [tp if a == "@TABLE@" else a for a in args]
     case = rp.get("replay_case", rp["case"])
-    args += ["-only", str(case)]
+    args += ["-upto" if rp.get("prefix") else "-only", str(case)]
     if rp.get("race"):
         # a data race shows only when the accesses actually overlap: more rounds, several attempts
         if "-n" in args:
             args[args.index("-n") + 1] = "60"
         for attempt in range(4):
             path, st = ck.run_worker(rp["driver"], args, out_name="replay.ndjson", seed=rp["seed"], race=True)
-            if st.get("worker_aborts") or any(json.loads(x).get("got") != json.loads(x).get("solo") for x in open(path) if '"conc"' in x):
+            if st.get("worker_aborts") or any(json.loads(x).get("got") != json.loads(x).get("solo") or json.loads(x).get("outcome") != "returned"
+                                              for x in open(path) if '"conc"' in x):
                 break
     elif rp.get("worker"):
         path, _ = ck.run_worker(rp["driver"], args, out_name="replay.ndjson", seed=rp["seed"], race=rp.get("race", False))
